@@ -2,7 +2,9 @@
    Only property theorems (each closed by [exact]) and [Print Assumptions]; the model is
    Model/Playlist*.v, the proofs Proofs/Playlist*.v. *)
 From Coq Require Import List ZArith Bool String.
-From GoHls Require Import Model.PlaylistBase Model.Playlist Model.PlaylistSpec Proofs.PlaylistTotal Proofs.PlaylistStruct.
+From GoHls Require Import Model.PlaylistBase Model.PlaylistIdeal Model.Playlist Model.PlaylistSpec
+  Proofs.PlaylistTotal Proofs.PlaylistStruct Proofs.PlaylistAttrs Proofs.PlaylistTags Proofs.PlaylistGrammar.
+Local Open Scope string_scope.
 Import ListNotations.
 
 (* For every byte string b and every behaviour of the external float / time parsers, the three
@@ -38,3 +40,44 @@ Theorem c15_structural : forall (O : oracles) (b : string) (p : playlist),
   unmarshal O b = Ok p -> playlist_structb p = true.
 Proof. exact unmarshal_struct. Qed.
 Print Assumptions c15_structural.
+
+(* Grammar, tag level (partial): for every oracle instance within the envelope, every
+   attribute-list tag Marshal prints for a valid value is "#TAG:" ++ NAME=value[,NAME=value]*
+   ++ "\n" with a non-empty list, names free of '=' and leading blanks, quoted values free of
+   quotes, unquoted values free of commas, nothing containing CR or LF; EXT-X-SERVER-CONTROL only
+   with CAN-BLOCK-RELOAD (finding F4 (c)).
+   Missing for the full c15_grammar: an independent recogniser strict_ok in Gallina for the
+   line-level grammar and the lexical types; that part is checked by the independent Go
+   grammar checker of the harness on every Marshal output. *)
+Theorem c15_grammar_partial_attribute_lists : forall (O : oracles), oracle_ok O ->
+  (forall t, dur_signed (st_timeoffset t) = true -> attr_line "#EXT-X-START:" (start_marshal O t))
+  /\ (forall t, dur_pos (pi_parttarget t) = true -> attr_line "#EXT-X-PART-INF:" (part_inf_marshal O t))
+  /\ (forall t, wf_map t = true -> attr_line "#EXT-X-MAP:" (map_marshal t))
+  /\ (forall t, wf_key t = true -> attr_line "#EXT-X-KEY:" (key_marshal t))
+  /\ (forall t, int31 (sk_skipped t) = true -> attr_line "#EXT-X-SKIP:" (skip_marshal t))
+  /\ (forall t, wf_part t = true -> attr_line "#EXT-X-PART:" (part_marshal O t))
+  /\ (forall t, wf_hint t = true -> attr_line "#EXT-X-PRELOAD-HINT:" (preload_hint_marshal t))
+  /\ (forall t, wf_rendition t = true -> attr_line "#EXT-X-MEDIA:" (rendition_marshal t))
+  /\ (forall t, wf_variant t = true ->
+        exists l, l <> nil /\ forallb attr_ok2 l = true
+                  /\ variant_marshal O t = "#EXT-X-STREAM-INF:" ++ render_attrs l ++ lf ++ v_uri t ++ lf)
+  /\ (forall t, wf_server_control t = true -> sc_canblockreload t = true ->
+        attr_line "#EXT-X-SERVER-CONTROL:" (server_control_marshal O t)).
+Proof. exact tag_lines_are_attribute_lists. Qed.
+Print Assumptions c15_grammar_partial_attribute_lists.
+
+(* Finding F4 (c) as a grammar defect: a valid value whose attribute list starts with a comma *)
+Theorem c15_grammar_refuted_server_control :
+  exists t, wf_server_control t = true
+            /\ server_control_marshal z_oracles t = "#EXT-X-SERVER-CONTROL:,PART-HOLD-BACK=1.00000" ++ lf.
+Proof. exact grammar_refuted_server_control. Qed.
+Print Assumptions c15_grammar_refuted_server_control.
+
+(* the hypothesis of the structural theorems is satisfiable: a text that decodes *)
+Theorem c15_example_decodes :
+  exists b m, media_unmarshal z_oracles b = Ok m /\ media_structb m = true.
+Proof.
+  exact (ex_intro _ _ (ex_intro _ _ (conj (eq_refl : media_unmarshal z_oracles
+    ("#EXTM3U" ++ lf ++ "#EXT-X-TARGETDURATION:2" ++ lf ++ "#EXTINF:1.5,t" ++ lf ++ "s.mp4" ++ lf) = Ok _) eq_refl))).
+Qed.
+Print Assumptions c15_example_decodes.
